@@ -59,6 +59,7 @@ func checkC10(p *Program, r *Report) {
 	c10FailureRaises(p, r, m)
 	c10ContainerConverters(p, r, m, "C10.R12")
 	accessorKindAgreement(p, r, m, "C10.R13")
+	c10DeleteValidates(p, r, m)
 }
 
 func c10Sinks(p *Program, r *Report, m *vmModel, sums *typeSummaries) {
@@ -96,6 +97,18 @@ func c10Sinks(p *Program, r *Report, m *vmModel, sums *typeSummaries) {
 					a := x.Call.Args
 					switch reflectMethod(x) {
 					case "Set":
+						// a store through the direct result of Value.Slice / Slice3 is dead: such a value is never settable, so the
+						// CanSet test in front of the store always fails (`a[i:j] = v` always reports "slice cannot be assigned")
+						recv := a[0]
+						if sv := spilledValue(recv); sv != nil {
+							recv = sv
+						}
+						if sc, ok := recv.(*ssa.Call); ok && (reflectMethod(sc) == "Slice" || reflectMethod(sc) == "Slice3") && underCanSet(b, recv) {
+							n++
+							perKind["Set"]++
+							r.OK("C10.R1", fmt.Sprintf("%s|Set #%d", funcName(fn), perKind["Set"]), p.Pos(instrPos(in)), "dead sink: the target is the direct result of reflect.Value.Slice3, which is never settable; the CanSet test in front of it always fails")
+							continue
+						}
 						emit(in, "Set", a[1], get().vtype(a[0]))
 					case "SetMapIndex":
 						emit(in, "SetMapIndex key", a[1], tKey(get().vtype(a[0])))
@@ -1286,6 +1299,38 @@ func c10ContainerConverters(p *Program, r *Report, m *vmModel, rule string) {
 						okSrc = true // mapKeys[i]
 					}
 				}
+				// (c) its error ends the conversion at once: tested inside the loop, the failing side leaves the loop
+				if lp := loopContaining(fn, c.Block()); lp != nil {
+					tested := false
+					for _, ref := range *c.Referrers() {
+						ex, ok := ref.(*ssa.Extract)
+						if !ok || ex.Index != 1 {
+							continue
+						}
+						for _, r2 := range *ex.Referrers() {
+							bo, ok := r2.(*ssa.BinOp)
+							if !ok || !isNilConst(bo.Y) || (bo.Op != token.NEQ && bo.Op != token.EQL) {
+								continue
+							}
+							for _, r3 := range *bo.Referrers() {
+								iff, ok := r3.(*ssa.If)
+								if !ok || !lp.Body[iff.Block()] {
+									continue
+								}
+								failSucc := iff.Block().Succs[0]
+								if bo.Op == token.EQL {
+									failSucc = iff.Block().Succs[1]
+								}
+								// the failing side does not come back into the loop
+								if !reachable(failSucc, nil)[lp.Header] {
+									tested = true
+								}
+							}
+						}
+					}
+					r.Check(tested, rule, fmt.Sprintf("%s|element conversion #%d stops at the first failure", funcName(fn), k), p.Pos(c.Pos()), "the error is tested inside the loop and the failing side leaves it",
+						"the error of an element's conversion is not acted on before the next element is converted: a later element that converts overwrites it, the bad element stays at the zero value and no error is reported (a list with an unconvertible element is accepted)")
+				}
 				r.Check(okSrc, rule, fmt.Sprintf("%s|element conversion #%d takes the element as iterated", funcName(fn), k), p.Pos(c.Pos()), "the argument is the key / value / element the iteration yields",
 					"the element is altered before it is handed to the element conversion (unwrapped without the nil test, a nil entry becomes the invalid reflect.Value: the entry is dropped or the call fails instead of yielding the zero value)")
 			}
@@ -1377,4 +1422,131 @@ func accessorKindAgreement(p *Program, r *Report, m *vmModel, rule string) {
 		}
 	}
 	r.Floor(rule, n, 12)
+}
+
+// underCanSet: block b lies on the true side of CanSet() of v.
+func underCanSet(b *ssa.BasicBlock, v ssa.Value) bool {
+	for d := b; d != nil && d.Idom() != nil; d = d.Idom() {
+		id := d.Idom()
+		iff, ok := id.Instrs[len(id.Instrs)-1].(*ssa.If)
+		if !ok {
+			continue
+		}
+		cond, neg := iff.Cond, false
+		if u, ok := cond.(*ssa.UnOp); ok && u.Op == token.NOT {
+			cond, neg = u.X, true
+		}
+		c, ok := cond.(*ssa.Call)
+		if !ok || reflectMethod(c) != "CanSet" {
+			continue
+		}
+		recv := c.Call.Args[0]
+		if sv := spilledValue(recv); sv != nil {
+			recv = sv
+		}
+		if recv != v {
+			continue
+		}
+		if (!neg && edgeOnly(id, 0, d)) || (neg && edgeOnly(id, 1, d)) {
+			return true
+		}
+	}
+	return false
+}
+
+// loopContaining: the innermost loop of fn whose body holds b (nil when b is in no loop).
+func loopContaining(fn *ssa.Function, b *ssa.BasicBlock) *Loop {
+	var best *Loop
+	for _, l := range loopsOf(fn) {
+		if l.Body[b] && (best == nil || len(l.Body) < len(best.Body)) {
+			best = l
+		}
+	}
+	return best
+}
+
+// c10DeleteValidates (R2): in the map arm of the delete statement, a return that reports success before the key was checked for
+// hashability is taken for a nil map only. Go refuses an unhashable key on delete whatever the map holds; a shortcut for "nothing
+// to delete" (an empty map) in front of the check accepts the ill-typed key silently.
+func c10DeleteValidates(p *Program, r *Report, m *vmModel) {
+	h := m.handlers["stmt"]["DeleteStmt"]
+	if h == nil {
+		r.Undecided("C10.R2", "DeleteStmt|handler", "vm", "no handler for the delete statement found")
+		return
+	}
+	base := m.baseOf(h)
+	// blocks that validate the key: a call of a vm helper that asks reflect.Value.Comparable
+	isValidator := func(fn *ssa.Function) bool {
+		if fn == nil || fn.Pkg != m.sp {
+			return false
+		}
+		for _, b := range fn.Blocks {
+			for _, in := range b.Instrs {
+				if c, ok := in.(*ssa.Call); ok && reflectMethod(c) == "Comparable" {
+					return true
+				}
+			}
+		}
+		return false
+	}
+	stop := func(b *ssa.BasicBlock) bool {
+		for _, in := range b.Instrs {
+			if c, ok := in.(*ssa.Call); ok && isValidator(staticCallee(c)) {
+				return true
+			}
+			if st, ok := in.(*ssa.Store); ok && m.cellAddr(st.Addr, base) == "err" && !isNilConst(st.Val) {
+				return true
+			}
+		}
+		return false
+	}
+	n := 0
+	for _, b := range h.Blocks {
+		iff, ok := b.Instrs[len(b.Instrs)-1].(*ssa.If)
+		if !ok {
+			continue
+		}
+		k, K := kindCmp(iff.Cond)
+		if k == nil || K != 21 {
+			continue
+		}
+		arm := b.Succs[0]
+		n++
+		bad := ""
+		for x := range reachable(arm, stop) {
+			ret, ok := x.Instrs[len(x.Instrs)-1].(*ssa.Return)
+			if !ok {
+				continue
+			}
+			// allowed only on the nil side of an IsNil test, or after an evaluation failed (the error cell is tested non-nil)
+			okRet := false
+			for d := x; d != nil && d.Idom() != nil; d = d.Idom() {
+				id := d.Idom()
+				if i2, ok := id.Instrs[len(id.Instrs)-1].(*ssa.If); ok {
+					cond, neg := i2.Cond, false
+					if u, ok := cond.(*ssa.UnOp); ok && u.Op == token.NOT {
+						cond, neg = u.X, true
+					}
+					if c, ok := cond.(*ssa.Call); ok && reflectMethod(c) == "IsNil" {
+						if (!neg && edgeOnly(id, 0, d)) || (neg && edgeOnly(id, 1, d)) {
+							okRet = true
+						}
+					}
+					if bo, ok := cond.(*ssa.BinOp); ok && isNilConst(bo.Y) && m.cellLoad(bo.X, base) == "err" {
+						if (bo.Op == token.NEQ && edgeOnly(id, 0, d)) || (bo.Op == token.EQL && edgeOnly(id, 1, d)) {
+							okRet = true
+						}
+					}
+				}
+			}
+			if !okRet {
+				bad = "the return at " + p.Pos(instrPos(ret)) + " reports success before the key was checked, and not only for a nil map"
+			}
+		}
+		r.Check(bad == "", "C10.R2", fmt.Sprintf("DeleteStmt|map arm #%d: success before the key check only for a nil map", n), p.Pos(iff.Cond.Pos()), "every early successful return lies on the nil side of an IsNil test",
+			bad+": an unhashable or ill-typed key is accepted silently when the map holds nothing (Go refuses it whatever the map holds)")
+	}
+	if n == 0 {
+		r.Undecided("C10.R2", "DeleteStmt|map arm", p.Pos(h.Pos()), "no Kind() == Map test found in the delete handler")
+	}
 }
